@@ -40,4 +40,10 @@ def obligations(tier):
                     'bounds': 'BIOS + two EFI sections (EFI, Mac) with three symbolic boot file lengths in [1,100000]; add_isohybrid(mac=True); config %s' % skel.cfg_name(c),
                     'functions': ['PyCdlib.add_eltorito', 'PyCdlib.add_isohybrid', 'PyCdlib._reshuffle_extents', 'IsoHybrid.update_rba', 'IsoHybrid.update_efi', 'IsoHybrid.update_mac'],
                     'samples': [(1, 1, 2049)]})
+    c0 = skel.cfg_of()
+    obs.append({'name': 'C12.c/apm/%s' % skel.cfg_name(c0), 'engine': 'chx', 'module': H, 'func': 'hybrid_layout', 'params': {'cfg': c0, 'apm': True},
+                'cond_timeout': 900, 'path_timeout': 200,
+                'bounds': 'as C12.c/hybrid_layout; ONLY the equation: Apple partition map entries 2 and 3 delimit the EFI / Mac El Torito images (in 2048-byte '
+                          'map blocks or 512-byte sectors)',
+                'functions': ['PyCdlib.add_isohybrid', 'IsoHybrid.update_efi', 'IsoHybrid.update_mac', 'APMPartHeader.new'], 'samples': []})
     return obs
